@@ -15,7 +15,7 @@ Note(cond, seq, tag) == IF cond \/ NTag(seq, tag) >= 60 THEN seq ELSE Append(seq
 Init == l = 1 /\ viol = <<>> /\ drift = <<>> /\ nchk = 0 /\ nlater = 0
 CtxSize == 1232
 Dump == /\ E.ev = "c19"
-        /\ LET v1 == Note(E.outcome = "ok", viol, "C19-later-dump-failed")
+        /\ LET v1 == Note(E.outcome = (IF "expectErr" \in DOMAIN E /\ E.expectErr THEN "err" ELSE "ok"), viol, "C19-later-dump-failed")
                v2 == Note(E.outcome = "ok" => E.memCount = E.expMem /\ E.memOk, v1, "C19-memory-regions-of-an-earlier-dump")
                v3 == Note(E.outcome = "ok" => IF E.blamedListed THEN E.excCtxRva = E.blamedCtxRva /\ E.excCtxSize = CtxSize
                                               ELSE E.excCtxSize = 0, v2, "C19-crashing-context-of-an-earlier-dump")
